@@ -1,10 +1,73 @@
 (* C11 — Wire codec: decoding is total and encode/decode round-trips losslessly.
    Pinned statements only; proofs live in Proofs/.  See DESIGN.md section 4/C11. *)
 From NW Require Import Base.Bytes Model.SchemaTypes Gen.Consts Gen.Schema Model.Codec Model.CodecWf.
-From NW Require Import Proofs.CodecNoPanic.
+From NW Require Import Proofs.CodecNoPanic Proofs.CodecTotal Proofs.CodecOneLine Proofs.CodecValueRT Proofs.CodecMsgRT.
+
+Definition mk_msg (k : nat) (fs : list fval) : msg := {| m_kind := k; m_fields := fs |}.
 
 (* Decoding any byte string never panics (overflow-checked profile). The proof needs the
    generated constant de_rejects_zero_count (read from deserialize.rs) to be true. *)
 Theorem C11_decode_no_panic : forall buf, deserialize schema Checked buf <> Panic.
 Proof. exact (deserialize_no_panic eq_refl schema). Qed.
 Print Assumptions C11_decode_no_panic.
+
+(* Decoding terminates for every byte string, in both arithmetic profiles: the fuel S (length buf)
+   of the parameter loop always suffices (each iteration consumes at least one byte). *)
+Theorem C11_decode_total : forall md buf, deserialize schema md buf <> OutOfFuel.
+Proof. intros. apply deserialize_total. Qed.
+
+(* hence decoding always returns a message or an error (overflow-checked profile) *)
+Theorem C11_decode_message_or_error : forall buf,
+  (exists m, deserialize schema Checked buf = Ok m) \/ deserialize schema Checked buf = Err.
+Proof.
+  intro buf. pose proof (C11_decode_no_panic buf) as Hp. pose proof (C11_decode_total Checked buf) as Hf.
+  destruct (deserialize schema Checked buf) as [m| | |]; [left; eauto | right; reflexivity | congruence | congruence].
+Qed.
+
+(* the generated schema table satisfies the side conditions of the round-trip theorem
+   (re-checked by computation against whatever message.rs says now) *)
+Theorem C11_schema_ok : schema_ok schema = true /\ schema_names_ok schema = true.
+Proof. split; [exact schema_ok_current | exact schema_names_ok_current]. Qed.
+
+(* An encoded message is exactly one newline-terminated line (fields free of the frame delimiter). *)
+Theorem C11_one_line : forall m cap l,
+  forallb fval_no_nl (m_fields m) = true -> serialize schema m cap = SerOk l ->
+  exists body, l = body ++ [NL] /\ mem NL body = false.
+Proof. intros m cap l. apply serialize_one_line. exact schema_names_ok_current. Qed.
+
+(* Lossless round trip for all 45 kinds and every message outside the known classes K11a-f
+   (wf_rt = class 0; vector lengths below 2^64): decoding the encoded line yields the original. *)
+Theorem C11_roundtrip : forall md m cap l,
+  wf_rt schema m = true -> forallb fval_len_ok (m_fields m) = true ->
+  serialize schema m cap = SerOk l -> exists body, l = body ++ [NL] /\ deserialize schema md body = Ok m.
+Proof. exact roundtrip_current. Qed.
+
+(* the scanner/printer pair on one string value in context (where the class boundaries come from) *)
+Theorem C11_value_roundtrip : forall pre s enc post,
+  str_class s = 0 -> fmt_str s = Some enc -> (post = [] \/ exists r, post = SP :: r) ->
+  read_escaped_string (pre ++ enc ++ post) (length pre)
+  = Ok (Some s, (length pre + length enc + if has_space s then 0 else match post with [] => 0 | _ => 1 end)%nat).
+Proof. exact value_roundtrip. Qed.
+
+(* ---- the known classes are real: each has a witness that encodes but does not decode to itself ---- *)
+Definition rt_fails (m : msg) : Prop :=
+  msg_shape_ok schema m = true /\
+  exists l, serialize schema m 4096 = SerOk l /\ deserialize schema Checked (removelast l) <> Ok m.
+Definition errm (detail : list N) : msg :=
+  mk_msg 8 [VONum (Some 5); VStr (bs "BAD_REQUEST"); VOStr (Some detail)].
+
+Theorem C11_K11a_empty_string_refuted : msg_class schema (errm []) = 1 /\ rt_fails (errm []).
+Proof. split; [reflexivity|]. split; [reflexivity|]. eexists; split; [vm_compute; reflexivity | vm_compute; discriminate]. Qed.
+Theorem C11_K11b_nul_refuted : msg_class schema (mk_msg 0 [VStr [97; 0; 98]]) = 2 /\ rt_fails (mk_msg 0 [VStr [97; 0; 98]]).
+Proof. split; [reflexivity|]. split; [reflexivity|]. eexists; split; [vm_compute; reflexivity | vm_compute; discriminate]. Qed.
+Theorem C11_K11c_leading_escape_refuted : msg_class schema (mk_msg 0 [VStr [92; 34; 97]]) = 3 /\ rt_fails (mk_msg 0 [VStr [92; 34; 97]]).
+Proof. split; [reflexivity|]. split; [reflexivity|]. eexists; split; [vm_compute; reflexivity | vm_compute; discriminate]. Qed.
+Theorem C11_K11d_lone_backslash_refuted : msg_class schema (mk_msg 0 [VStr [92]]) = 4 /\ rt_fails (mk_msg 0 [VStr [92]]).
+Proof. split; [reflexivity|]. split; [reflexivity|]. eexists; split; [vm_compute; reflexivity | vm_compute; discriminate]. Qed.
+Theorem C11_K11e_trailing_backslash_refuted : msg_class schema (errm [97; 32; 92]) = 5 /\ rt_fails (errm [97; 32; 92]).
+Proof. split; [reflexivity|]. split; [reflexivity|]. eexists; split; [vm_compute; reflexivity | vm_compute; discriminate]. Qed.
+Theorem C11_K11f_invalid_message_refuted : msg_class schema (mk_msg 29 [VNum 0]) = 6 /\ rt_fails (mk_msg 29 [VNum 0]).
+Proof. split; [reflexivity|]. split; [reflexivity|]. eexists; split; [vm_compute; reflexivity | vm_compute; discriminate]. Qed.
+
+Print Assumptions C11_roundtrip.
+Print Assumptions C11_decode_total.
